@@ -32,6 +32,9 @@ CHECKS['C10'] = ('property-based testing: regex alphabet built from the model\'s
 CHECKS['C05'] = ('property-based testing: independent storage-format decoder, element-wise half-step/one-step bound on every rewritten constant',
   'Generated graphs over the constant-carrying ops with adversarial constant data (constant, one-sided, outliers, zeros, tiny, huge, tie grids, odd element counts) under every accepted weight/static/fp16 config; each rewritten constant of the output is length-checked, decoded (int4 low nibble first) and dequantized with its own stored parameters by code that shares nothing with the library, and compared element-wise with the float original (half a step symmetric / one step asymmetric; fp16 bit-exact; bias = round(bias/scale)).',
   'Tolerance 1e-5 relative + float32 rounding; symmetry of a tensor\'s config is taken from the reference resolution.', 'DESIGN.md 4 C05')
+CHECKS['C06'] = ('property-based testing with a differential oracle: interpreter run of the quantized model vs a check-built reference program, end to end and operator by operator',
+  'Generated models x weight-only / fp16 / dynamic-range recipes x random inputs: (i) for graphs without dynamic-range ops the outputs must equal, to float32 rounding, those of a reference program the check builds from the SOURCE spec with every rewritten constant replaced by its independently decoded and dequantized value; (ii) every original operator is re-executed as a single-op float model on exactly the inputs it saw inside the quantized model: float ops must agree to rounding, dynamic-range ops within the analytic bound max|x|/254 * max_j sum_k|w_jk|; inserted DEQUANTIZE outputs must equal the decoded constants. Two open findings (accepted configs the runtime mis-executes) are matched structurally.',
+  'LiteRT float kernels define the op semantics; the bound assumes symmetric per-batch 8-bit activation quantization in the hybrid kernels.', 'DESIGN.md 4 C06')
 NOT_APPLICABLE = {}
 
 def main():
